@@ -23,6 +23,7 @@ KindsAll == CoreKinds
 \* the three ways into a nested invocation are one kind for the machine: model checking takes one; likewise one
 \* of the transparent positions (a metamethod) and two helper calls (the one a deviation is about, one other)
 KindsMC == (CoreKinds \ {"ninvt", "ninvx"}) \cup HandlerKinds \cup {"mts", HC("_python_append_env", "nil"), HC("_save_mod", "table")}
+KindsMCcore == CoreKinds \ {"ninvt", "ninvx"}     \* depth 3 for the deviations that do not concern the new kinds
 KindsMC3 == (CoreKinds \ {"ninvt", "ninvx"}) \cup {"xhe", "xht", HC("_python_append_env", "nil")}
 KindsCore == {"pcall", "ploop", "cowrap", "ninv"}
 \* family "where the non-terminating code runs": wrapper lists that contain a nested invocation
